@@ -30,7 +30,15 @@ from props import wirelib as WL
 
 COQ_FILES = ["Cancel/Model.v", "Cancel/Proofs.v", "Cancel/Props.v"]
 HOOK_POINT = "client_exit:before_drop"
-BAD_CLOSE = "4300000006" + "5378"      # Close ('C') whose name has no terminating NUL: decode error
+BAD = {
+    # 'Q' whose length field is 3: read_message answers Err("Unexpected length value") -> the task ends on the
+    # "client disconnected" path (inside the transaction loop: checkin_cleanup, then return Err)
+    "badlen": {"raw": "5100000003"},
+    # Close ('C') with body "S" and no name: Close::try_from panics (slice of an empty read_until) -> unwinding
+    "panic": {"raw": "430000000553"},
+    # Bind of a statement the client never parsed, statement cache on (transaction mode): error_response, return Err
+    "bindunk": {"t": "B", "portal": "", "name": "nosuch", "fmts": [], "params": [], "rfmts": []},
+}
 KNOWN = {
     "F28": "F28-cancel-drop-removes-target-entry",
     "F13": "F13-exit-window-stale-entry",
@@ -66,7 +74,7 @@ class Builder:
     def toml(self):
         pools = {}
         for p, d in self.pools.items():
-            pools[p] = {"opts": {"pool_mode": self.mode}, "users": [{"pool_size": self.psize}],
+            pools[p] = {"opts": {"pool_mode": self.mode, "prepared_statements_cache_size": 16 if self.mode == "transaction" else 0}, "users": [{"pool_size": self.psize}],
                         "shards": [{"database": "db_" + p, "servers": [[d["backend"], "primary"]]}]}
         return WL.make_toml({"worker_threads": 4}, pools)
 
@@ -219,9 +227,11 @@ class Builder:
         self.steps.append({"op": "close", "c": c})
         self._exit(c, park)
 
-    def bad(self, c, park=False):
-        self.actions.append(["bad", c, park])
-        self.steps.append({"op": "send", "c": c, "msgs": [{"raw": BAD_CLOSE}]})
+    def bad(self, c, park=False, kind="badlen"):
+        if kind == "bindunk" and self.mode != "transaction":
+            kind = "badlen"
+        self.actions.append(["bad", c, park, kind])
+        self.steps.append({"op": "send", "c": c, "msgs": [dict(BAD[kind], bad=kind)]})
         self._exit(c, park)
 
     def hook(self, park_clients):
@@ -301,7 +311,9 @@ def systematic(hook):
                 b.drain()
                 out.append(b)
                 # T3 error exits: socket closed / malformed message, in and outside a transaction, then reuse
-                for how in ("drop", "bad"):
+                for how in ("drop", "badlen", "panic", "bindunk"):
+                    if how == "bindunk" and mode != "transaction":
+                        continue
                     for intxn in (True, False):
                         b = mk(mode, psize, 2 if not two else 4, two, tag + "/exit-%s-%s" % (how, "txn" if intxn else "idle"))
                         o = "c1" if not two else "c2"
@@ -310,7 +322,7 @@ def systematic(hook):
                         else:
                             b.stmt("c0")
                         b.cancel("c0")
-                        getattr(b, how)("c0")
+                        b.drop("c0") if how == "drop" else b.bad("c0", kind=how)
                         b.cancel("c0")
                         b.long(o); b.cancel("c0"); b.cancel(o); b.finish(o); b.cancel(o); b.cancel("c0")
                         b.drain()
@@ -318,23 +330,28 @@ def systematic(hook):
     if hook:
         for mode in ("transaction", "session"):
             for psize in (1, 2):
-                for how, intxn in (("drop", True), ("drop", False), ("bad", False), ("bad", True)):
+                for how, intxn in (("drop", True), ("drop", False), ("badlen", False), ("badlen", True), ("bindunk", True)):
                     if mode == "transaction" and not intxn:
                         continue      # nothing is held between transactions in transaction mode
-                    b = mk(mode, psize, 2, False, "%s/p%d/window-%s-%s" % (mode[:4], psize, how, "txn" if intxn else "idle"))
-                    if intxn:
-                        b.begin("c0")
-                    else:
-                        b.stmt("c0")
-                    b.cancel("c0")
-                    b.hook(["c0"])
-                    getattr(b, how)("c0", park=True)     # c0's task is now between handle() and the drop of Client
-                    b.cancel("c0")
-                    b.long("c1"); b.cancel("c0"); b.cancel("c1"); b.cancel("c0")
-                    b.unpark("c0")
-                    b.cancel("c0"); b.cancel("c1")
-                    b.finish("c1"); b.cancel("c1")
-                    out.append(b)
+                    if how == "bindunk" and mode != "transaction":
+                        continue
+                    for pre in (True, False):
+                        b = mk(mode, psize, 2, False, "%s/p%d/window-%s-%s%s" % (mode[:4], psize, how, "txn" if intxn else "idle", "" if pre else "-nopre"))
+                        if intxn:
+                            b.begin("c0")
+                        else:
+                            b.stmt("c0")
+                        if pre:
+                            b.cancel("c0")    # (without it the departing key has never been used before the window)
+                        b.hook(["c0"])
+                        # c0's task ends on an error path and is parked between handle() returning and the drop of Client
+                        b.drop("c0", park=True) if how == "drop" else b.bad("c0", park=True, kind=how)
+                        b.cancel("c0")
+                        b.long("c1"); b.cancel("c0"); b.cancel("c1"); b.cancel("c0")
+                        b.unpark("c0")
+                        b.cancel("c0"); b.cancel("c1")
+                        b.finish("c1"); b.cancel("c1")
+                        out.append(b)
     return out
 
 
@@ -361,7 +378,10 @@ def random_program(rng, idx, big):
         if not acts:
             break
         a, c = rng.choice(acts)
-        getattr(b, a)(c)
+        if a == "bad":
+            b.bad(c, kind=rng.choice(["badlen", "panic", "bindunk"]))
+        else:
+            getattr(b, a)(c)
     b.cancel(rng.choice(b.order))
     b.drain()
     b.cancel(rng.choice(b.order))
@@ -396,13 +416,17 @@ def analyse(meta, res):
             sid_of[(e["who"], e["conn"])] = len(tgts)
             sess[(e["who"], e["conn"])] = (e["pid"], e["key"])
             tgts.append((e["pid"], e["key"], bidx[e["who"]]))
-    closes = {}
-    for e in ev:
-        if e.get("ev") == "close" and "conn" in e:
-            closes.setdefault((e["who"], e["conn"]), []).append(e["seq"])
-
     def clean_after(sk, seq):
-        return not any(q > seq for q in closes.get(sk, []))
+        """did the connection survive the put_back that follows this release/exit?  It did unless the
+        backend saw it close before any client's (tagged) statement arrived on it again."""
+        for f in ev:
+            if f["seq"] <= seq or f.get("who") != sk[0] or f.get("conn") != sk[1]:
+                continue
+            if f.get("ev") == "close":
+                return False
+            if f.get("ev") == "msg" and _tag_of((f.get("detail") or {}).get("sql")):
+                return True
+        return True
 
     mode = meta["mode"]
     holding = {c: None for c in clients}      # session key (backend, conn)
@@ -456,7 +480,7 @@ def analyse(meta, res):
                         holding[who] = None
                     else:
                         ops.append("ExitDropClient %d" % cidx[who])
-                elif "raw" in m and alive[who]:
+                elif "bad" in m and alive[who]:
                     do_exit(who, e["seq"], who in meta.get("parked", {}))
         elif who in cidx and kind == "closed_by_client" and alive[who]:
             do_exit(who, e["seq"], who in meta.get("parked", {}))
@@ -474,8 +498,7 @@ def analyse(meta, res):
                 for d in clients:
                     if d != c and holding[d] == sk and mode == "transaction":
                         for f in ev[i + 1:]:
-                            if f.get("who") == d and f.get("ev") == "sent":
-                                break
+                            # (d's own `sent` may be logged late too: the harness logs after the write)
                             if f.get("who") == d and f.get("ev") == "recv":
                                 fr = f.get("frames") or []
                                 if fr and fr[-1].get("t") == "Z" and fr[-1].get("status") == "I":
@@ -493,13 +516,19 @@ def analyse(meta, res):
             if fr and fr[-1].get("t") == "Z" and fr[-1].get("status") == "I" and mode == "transaction" and holding[who] is not None and alive[who]:
                 ops.append("ReleaseNormal %d %s" % (cidx[who], "true" if clean_after(holding[who], e["seq"]) else "false"))
                 holding[who] = None
+        elif kind == "mark" and e.get("of") == "cancel":
+            # the window of the next cancel request opens here (its packets may be logged by the
+            # backend before the harness logs `cancel_sent`)
+            cancels.append({"seq": e["seq"], "owner": None, "events": []})
         elif kind == "cancel_sent":
             owner, sym = sym_key(e["pid"], e["key"])
             held = holding.get(owner[1]) if owner[0] == "client" else None
-            cancels.append({"seq": e["seq"], "owner": owner, "sym": sym, "op_index": len(ops), "held": held,
-                            "owner_exiting": owner[0] == "client" and owner[1] in exiting,
-                            "exiting_held": exiting.get(owner[1]) if owner[0] == "client" else None,
-                            "prior_same_key_since_checkout": False, "events": []})
+            if not cancels or cancels[-1]["owner"] is not None:
+                cancels.append({"seq": e["seq"], "owner": None, "events": []})
+            cancels[-1].update({"owner": owner, "sym": sym, "op_index": len(ops), "held": held,
+                                "owner_exiting": owner[0] == "client" and owner[1] in exiting,
+                                "exiting_held": exiting.get(owner[1]) if owner[0] == "client" else None,
+                                "prior_same_key_since_checkout": False})
             # did an earlier request with this key arrive since the owner's checkout?  (class F28)
             if owner[0] == "client" and held is not None:
                 for o in reversed(ops):
@@ -517,6 +546,9 @@ def analyse(meta, res):
     while si < len(snaps):
         snap_at.append((len(ops), snaps[si].get("csm"), snaps[si].get("label")))
         si += 1
+    if any(k["owner"] is None for k in cancels):
+        problems.append("a cancel step left no cancel_sent event")
+        cancels = [k for k in cancels if k["owner"] is not None]
 
     # ---- monitor: the property predicate on the trace alone
     verdicts = []
